@@ -19,9 +19,9 @@ RULE = ('Cases: 2..8 samples (related sequences with substitutions, N, private e
         'output file.  Non-trivial: at least one k-mer is missing from at least one sample (padding is exercised); distinct = '
         'distinct (k, mode, samples, partition, nesting).')
 ASSUMPTIONS = ['the joint build is a run of the same binary (differential oracle); the model is the independent one',
-               'sample names are s<i> (from file names)']
+               'sample names are s<i> (from file names) or, in a third of the cases, unusual legal names (punctuation, dots, a leading dash, non-ASCII; no white space, which separates the columns of a file list) given through file lists']
 REQUIRED = {t: ['merge:flat', 'merge:nested', 'refuse:k:first', 'refuse:k:later', 'refuse:rc:first', 'refuse:rc:later',
-                'width64', 'width128', 'padded_cells', 'samples_with_all_codes', 'dotted_output_prefix', 'stored_objects_checked'] for t in ('quick', 'thorough')}
+                'width64', 'width128', 'padded_cells', 'samples_with_all_codes', 'dotted_output_prefix', 'stored_objects_checked', 'unusual_sample_names'] for t in ('quick', 'thorough')}
 
 
 def builds(tier):
@@ -85,6 +85,18 @@ def run_case(desc, ctx):
     if desc.get('codes') and rcmode:
         res.count('samples_with_all_codes')
     files = [G.write_fa(ctx.path('s%d.fa' % i), recs) for i, recs in enumerate(samples)]
+    # sample names: s<i> from the file names, or (a third of the cases) unusual but legal names given in file lists
+    POOL = ['iso-1', 'A|b', 'x=y', 'n.1', 'E.coli.K12', 'a+b', 'S#3', 'p:q', "o'k", 'q~r', '7', 'Zz_', 'run.fastq', 'm.fa', '-dash', 'UPPER', 'é_coli']
+    odd = desc['seed'] % 3 == 0
+    snames = rng.sample(POOL, ns) if odd else ['s%d' % i for i in range(ns)]
+    if odd:
+        res.count('unusual_sample_names')
+
+    def build_of(out, idxs, binary):
+        if not odd:
+            return G.ska_build(ctx, out, [files[i] for i in idxs], k, rcmode, binary=binary)
+        lst = ctx.write(os.path.basename(out) + '.list', ''.join('%s\t%s\n' % (snames[i], files[i]) for i in idxs))
+        return G.ska_build(ctx, out, ['-f', lst], k, rcmode, binary=binary)
     # output prefixes: plain, or with dots in the file name (E.coli -> E.coli.skf)
     outname = rng.choice(['m', 'm', 'merged.v1', 'E.coli.run2'])
     if '.' in outname:
@@ -103,10 +115,10 @@ def run_case(desc, ctx):
         pf = []
         ok = True
         for j, pt in enumerate(parts):
-            p = G.ska_build(ctx, ctx.path('p%d' % j), [files[i] for i in pt], k, rcmode, binary=b)
+            p = build_of(ctx.path('p%d' % j), pt, b)
             ok = ok and p.returncode == 0
             pf.append(ctx.path('p%d.skf' % j))
-        pj = G.ska_build(ctx, ctx.path('joint'), [files[i] for i in order], k, rcmode, binary=b)
+        pj = build_of(ctx.path('joint'), order, b)
         if not ok or pj.returncode != 0:
             res.count('setup_build_failed')
             return res
@@ -142,7 +154,7 @@ def run_case(desc, ctx):
             res.violate('C07:nk-failed', 'nk failed after merge: %s' % e, {'samples': samples, 'parts': parts})
             continue
         model = M.table_of([samples[i] for i in order], k, rcmode)
-        names = ['s%d' % i for i in order]
+        names = [snames[i] for i in order]
         bad = []
         if hm.get('names') != names:
             bad.append('names %s expected %s' % (hm.get('names'), names))
